@@ -5,6 +5,15 @@ V = os.path.dirname(os.path.dirname(os.path.abspath(__file__)))
 props = [json.loads(l) for l in open(os.path.join(V, "properties.jsonl"))]
 
 CLAIMS = {
+ "C12": dict(
+   text="CacheThreads.tla models threads x process-wide cache x lock x id allocator with the lock-protected steps exactly as the code takes them; TLC "
+        "explores all interleavings within the bounds (ResultSequential, NoMissingBucket, UniqueLiveIds) and the named deviation must still fail. Real "
+        "threads run mixed compile/decompile calls under a deterministic one-runnable-thread scheduler (yield points: every cache-lock acquisition, "
+        "lexer token and parser prediction; seeded and preemption-bounded schedules) and free-running with a 1e-6 switch interval; each call's digest "
+        "must equal its solo digest, no call may raise, and the interleaved cache events recorded by the guarded hooks are validated by TLC against "
+        "ProcessState.tla.",
+   ref="§3 C12", technique="TLC model checking of the threads x cache x lock model + TLC trace validation of real multi-threaded runs under a deterministic scheduler",
+   note="2-3 threads, bounded model; schedules at cache-operation / token / prediction granularity, bytecode-level preemption only by free-running stress; ANTLR internals not modelled"),
  "C11": dict(
    text="ProcessState.tla models the process-wide memo table keyed by id(graph) with id recycling, pinning and the pass structure of convert(); TLC "
         "explores all histories within the bounds (CacheTransparent) and the named deviation of the pinned tree must still produce the counterexample. "
